@@ -66,6 +66,10 @@ def EL.deref (e : EL) : Option Nat → EM RObj
 def EL.setObj (e : EL) (id : Nat) (r : HRange) : EL :=
   { e with rs := e.rs.map fun o => if o.id == id then { o with r := r } else o }
 
+/-- `*hl->hr[i] = r` -/
+def EL.setAt (e : EL) (i : Nat) (r : HRange) : EL :=
+  { e with rs := e.rs.modify i fun o => { o with r := r } }
+
 /-! ### push -/
 /-- `hostlist_push_range(hl, hr)`: tail coalescing mutates the tail RECORD in place; otherwise a
     copy of `hr` is appended as a new record -/
@@ -189,25 +193,40 @@ def hostrangeDeleteHost (r : HRange) (n : Nat) : HRange × Option HRange :=
   else if n = r.hi then ({ r with hi := subU64 r.hi 1 }, none)
   else ({ r with hi := subU64 n 1 }, some { r with lo := addU64 n 1 })
 
-/-- the loop of `hostlist_delete_nth(hl, n)` for 0 ≤ n < count (`int num_in_range`) -/
-def deleteNthLoop (cfg : Cfg) (e : EL) (n : Nat) : List RObj → Nat → Nat → EL
-  | [], _, _ => e
-  | o :: rest, i, count =>
-    let num := o.r.count
+/-- what `hostlist_delete_nth` did to the array (the iterators are re-based accordingly) -/
+inductive Change where
+  | none
+  | deleted (i : Nat)        -- `hostlist_delete_range(hl, i)`
+  | inserted (i : Nat)       -- `hostlist_insert_range(hl, new, i)`
+  deriving Repr, DecidableEq
+
+/-- the loop of `hostlist_delete_nth(hl, n)` for 0 ≤ n < count on the record array: the record that
+    holds position n loses that host — it shrinks at an end, is split (the upper part becomes a new
+    record `fresh`), or goes away when it held one host -/
+def deleteNthRs (fresh : Nat) : List RObj → Nat → Nat → Nat → List RObj × Change
+  | [], _, _, _ => ([], .none)
+  | o :: rest, n, i, count =>
+    let num := o.r.count                      -- `int num_in_range = hostrange_count(hl->hr[i])`
     if n + 1 ≤ num + count then
-      if o.r.single then deleteRange cfg e i
+      if o.r.single then (rest, .deleted i)
       else
         match hostrangeDeleteHost o.r (addU64 o.r.lo (n - count)) with
-        | (r', some up) => insertRange (e.setObj o.id r') up (i + 1)
-        | (r', none) =>
-          let e1 := e.setObj o.id r'
-          if r'.empty then deleteRange cfg e1 i else e1
-    else deleteNthLoop cfg e n rest (i + 1) (count + num)
+        | (r', some up) => ({ o with r := r' } :: ⟨fresh, up⟩ :: rest, .inserted (i + 1))
+        | (r', none) => if r'.empty then (rest, .deleted i) else ({ o with r := r' } :: rest, .none)
+    else
+      match deleteNthRs fresh rest n (i + 1) (count + num) with
+      | (rs', c) => (o :: rs', c)
 
 /-- `hostlist_delete_nth` -/
 def deleteNthE (cfg : Cfg) (e : EL) (n : Nat) : EL :=
-  let e1 := deleteNthLoop cfg e n e.rs 0 0
-  { e1 with nhosts := e1.nhosts - 1 }
+  match deleteNthRs e.nextId e.rs n 0 0 with
+  | (_, .deleted i) => let e1 := deleteRange cfg e i; { e1 with nhosts := e1.nhosts - 1 }
+  | (rs', .inserted i) =>
+    -- the lower part was shrunk in place, then `hostlist_insert_range` (its iterator fix-up included)
+    let e0 : EL := { e with rs := (rs'.take i) ++ rs'.drop (i + 1) }
+    let e1 := insertRange e0 ((rs'[i]?.map (·.r)).getD default) i
+    { e1 with nhosts := e1.nhosts - 1 }
+  | (rs', .none) => { e with rs := rs', nhosts := e.nhosts - 1 }
 
 /-- `hostlist_delete_host` -/
 def deleteHostE (cfg : Cfg) (e : EL) (name : Str) : Int × EL :=
